@@ -482,6 +482,12 @@ func (w *World) denomOf(in *Input) string {
 		return in.Base
 	case "OTHERCH":
 		return other + in.Base
+	case "SIBLING":
+		// a voucher that IS returning-native on the test-bed's other channel, arriving over this one
+		return "transfer/" + w.cpChanOf[1-in.Chan] + "/" + in.Base
+	case "NOBLESIDE":
+		// prefixed by the NOBLE-side identifier of this channel (the packet's destination end)
+		return "transfer/" + w.chanOf[in.Chan] + "/" + in.Base
 	case "OTHERPORT":
 		return "other/" + w.cpChanOf[in.Chan] + "/" + in.Base
 	case "MULTI":
